@@ -231,6 +231,10 @@ def check_axis_none(case, rec):
             d = gen.cf_kwargs(c)
             d.pop('return_samples')
             d['threshold_kwargs'] = gen.copy_json(ths[k])
+            if case.get('stray_center') and k >= 1 and (k + case['stray_center']) % 2 == 0:
+                # a later epoch's option set names the other centring: documented to be ignored with a warning (the first one is
+                # used for the whole recording); everything else in that option set still applies to its epoch
+                d['center_extrema'] = 'trough' if c['center'] == 'peak' else 'peak'
             arg.append(d)
         kw0 = dict(kw0, threshold_kwargs=gen.copy_json(ths[0]))
     if c['method'] == 'amp':
@@ -305,7 +309,7 @@ def strat_axis_none(draw, tier):
             if c.get('bk'):
                 c['bk'].pop('min_n_cycles', None)
     return {'base': c, 'mode': mode, 'ths': ths, 'layout': draw(st.sampled_from(['C', 'C', 'F', 'T'])),
-            'second_call': draw(st.integers(0, 3)) == 0, 'other_values': draw(st.integers(0, 2)) == 0,
+            'second_call': draw(st.integers(0, 3)) == 0, 'stray_center': draw(st.integers(0, 2)), 'other_values': draw(st.integers(0, 2)) == 0,
             'epoch': [draw(st.sampled_from(['coincide', 'coincide', 'short', 'arbitrary', 'arbitrary'])), draw(st.integers(0, 500)), draw(st.integers(0, 5))]}
 
 
